@@ -37,7 +37,7 @@ func init() {
 				{Name: "handshake-faults", Variant: "race", Cases: h, Run: c06handshake, CaseTimeout: 40 * time.Second, Required: []string{"handshake_faults"}},
 				{Name: "write-offsets", Variant: "plain", Cases: e, Run: c06offsets, CaseTimeout: 40 * time.Second, Required: []string{"cuts_injected"}},
 				{Name: "near-full", Variant: "plain", Cases: n / 20, Shards: 4, Run: c06nearfull, CaseTimeout: 120 * time.Second, Required: []string{"nearfull_build_failures"}},
-				{Name: "scenarios", Variant: "race", Cases: n, Run: c06case, CaseTimeout: 60 * time.Second, Required: []string{"closer_scenarios", "never_answered", "frame_build_failures", "no_streams_outcomes", "conservation_checks", "stream_starts", "timeout_limit_scenarios"}},
+				{Name: "scenarios", Variant: "race", Cases: n, Run: c06case, CaseTimeout: 60 * time.Second, Required: []string{"closer_scenarios", "never_answered", "frame_build_failures", "no_streams_outcomes", "conservation_checks", "stream_starts", "timeout_limit_scenarios", "undecodable_late_answers"}},
 			}
 		},
 	})
@@ -59,6 +59,7 @@ func c06report(c *runner.Ctx, ec *echoCfg, res *echoResult) {
 	c.Add("no_streams_outcomes", int64(res.outcomes["no-streams"]))
 	c.Add("frame_build_failures", int64(res.outcomes["marshal-error"]))
 	c.Add("never_answered", res.never)
+	c.Add("undecodable_late_answers", res.undecodable)
 	c.Add("stream_starts", res.streamObs.started)
 	c.Add("cuts_injected", int64(res.cutsInjected))
 	for _, m := range res.mismatches {
@@ -131,6 +132,16 @@ func c06cfg(c *runner.Ctx, i int) *echoCfg {
 			ec.pNever = 10 + r.Intn(30)
 		}
 		c.Add("timeout_limit_scenarios", 1)
+	}
+	if i%8 == 0 {
+		// late answers that cannot be decoded (compression flag without negotiated compression): their callers have
+		// gone, the connection lives on, the ids come back
+		ec.lateUndecodable = true
+		if ec.pLate < 10 {
+			ec.pLate = 10 + r.Intn(20)
+		}
+		ec.writeCutAt, ec.nodeCloseAfter, ec.closeSessionAfter, ec.stallAt = -1, -1, -1, 0
+		c.Add("undecodable_late_answer_scenarios", 1)
 	}
 	switch i % 4 {
 	case 1:
